@@ -79,13 +79,13 @@ example : (decItem { ntSize := 2, signExt := true, fillOne := false, maskOff := 
     ((encode { ntSize := 2, signExt := true, fillOne := false, maskOff := 9, maskLen := 6 } 0 [0x03, 0xff]).1.map fun f => f.2 % 2 ^ f.1)).1
     = [0xff, 0xf0] := by decide +kernel
 
-/-- counter-witness for "any partition into whole-value transfers" on the READ side (finding `nbit-read-partition`):
-    `HCIcnbit_decode` sizes its expansion buffer from the current request, so a 4-byte read followed by an 8-byte read of an
-    `int32` element written as 01..0c returns 4 bytes of whatever the buffer held (`0xbe` here) instead of value #2, and value #3
-    is never delivered.  The C library behaves the same (REPORT.md, reproduction p1.c). -/
+/-- the former counter-witness for "any partition into whole-value transfers" on the READ side (finding
+    `nbit-read-partition`, repaired): a 4-byte read followed by an 8-byte read of an `int32` element written as 01..0c used to
+    return 4 bytes of the stale expansion buffer (`0xbe` here) instead of value #2; `HCIcnbit_decode` now tracks how many
+    expanded bytes the buffer holds (`buf_len`). -/
 example : readBack { ntSize := 4, signExt := false, fillOne := false, maskOff := 31, maskLen := 32 }
     (compress { ntSize := 4, signExt := false, fillOne := false, maskOff := 31, maskLen := 32 } [1, 2, 3, 4, 5, 6, 7, 8, 9, 10, 11, 12])
-    [4, 8] 0xbe = [[1, 2, 3, 4], [0xbe, 0xbe, 0xbe, 0xbe, 5, 6, 7, 8]] := by decide +kernel
+    [4, 8] 0xbe = [[1, 2, 3, 4], [5, 6, 7, 8, 9, 10, 11, 12]] := by decide +kernel
 
 /-- the same element read in one call is delivered correctly (whole path through the bit layer) -/
 example : readBack { ntSize := 4, signExt := false, fillOne := false, maskOff := 31, maskLen := 32 }
@@ -169,45 +169,122 @@ theorem length_projects (c : Cfg) (vs : List (List UInt8)) (h : ∀ v ∈ vs, v.
     unfold project
     rw [length_bitsBytes, h v (by simp), Nat.add_mul]; omega
 
-/-- `nbit_element_roundtrip`: the whole path for one transfer.  An element written with any sequence of whole values
-    (through the real bit layer: `Hbitwrite`s, buffering, `Hendbitaccess`), at most `NBIT_BUF_SIZE` (1024) bytes in all, and read
-    back with ONE `Hread` of the whole length returns the documented projection of every value, whatever the expansion
-    buffer held before (`stale`).  For other read partitions see the counter-witness below `nbit_projection`
-    (finding `nbit-read-partition`); the write side is partition-independent (`nbit_encode_partition`). -/
-theorem nbit_element_roundtrip (c : Cfg) (hv : c.Valid) (vs : List (List UInt8)) (hvs : ∀ v ∈ vs, v.length = c.ntSize)
-    (hne : vs ≠ []) (hsize : vs.length * c.ntSize ≤ 1024) (stale : UInt8) :
-    readBack c (compress c vs.flatten) [vs.length * c.ntSize] stale = [(vs.map (project c)).flatten] := by
-  have hn : 0 < c.ntSize := by rcases hv.1 with h | h | h | h <;> omega
-  have hk : 0 < vs.length := List.length_pos_iff.mpr hne
-  have hL : 0 < vs.length * c.ntSize := Nat.mul_pos hk hn
-  obtain ⟨f1, _⟩ := encode_values c hn vs hvs
-  -- what the bit layer stores and delivers
-  have hvf : ValidFields (encode c 0 vs.flatten).1 := encode_valid c hv _ 0
-  obtain ⟨⟨tail, ht⟩, _⟩ := bitwrite_refines _ hvf (some false)
-  obtain ⟨ri, junk, ha⟩ := startRead_ok (compress c vs.flatten)
-  have ha' : avail (startRead (compress c vs.flatten)) = fieldsBits (vs.map fun v => (encode c 0 v).1).flatten ++ (tail ++ junk) := by
-    rw [ha]; unfold compress; rw [ht, f1, List.append_assoc]
-  obtain ⟨st', sg', e, _, _⟩ := refillItems_ok c hv vs _ false (tail ++ junk) hvs ri ha'
-  have hlen := length_projects c vs hvs
-  generalize hI : (vs.map (project c)).flatten = items at *
-  unfold readBack decodeAll
-  simp only [List.map_cons, List.map_nil, runOps, decode]
-  have hC : H4.Gen.Cnbit.NBIT_BUF_SIZE = 1024 := rfl
-  have hmin : min H4.Gen.Cnbit.NBIT_BUF_SIZE (vs.length * c.ntSize) = vs.length * c.ntSize := by omega
-  have hdiv : vs.length * c.ntSize / c.ntSize = vs.length := Nat.mul_div_cancel _ hn
-  rw [hmin, hdiv]
-  generalize hLL : vs.length * c.ntSize = L at *
-  have hne0 : ¬ L = 0 := by omega
-  have hge : H4.Gen.Cnbit.NBIT_BUF_SIZE ≥ L := by omega
-  unfold decodeLoop
-  simp only [hne0, if_false, hge, if_true, e, Nat.sub_zero, Nat.lt_irrefl, gt_iff_lt, Nat.sub_self, List.nil_append, List.drop_zero]
-  have htake : List.take L (items ++ List.drop items.length (List.replicate H4.Gen.Cnbit.NBIT_BUF_SIZE stale)) = items := by
-    rw [List.take_append_of_le_length (by omega), List.take_of_length_le (by omega)]
-  rw [htake]
-  cases L with
-  | zero => omega
-  | succ L => simp [decodeLoop]
+/-- fields written for the values `vs` -/
+def valueFields (c : Cfg) (vs : List (List UInt8)) : List (Nat × Nat) := (vs.map fun v => (encode c 0 v).1).flatten
 
+theorem valueFields_append (c : Cfg) (a b : List (List UInt8)) : valueFields c (a ++ b) = valueFields c a ++ valueFields c b := by
+  simp [valueFields]
+
+/-- one `HCIcnbit_decode` call for the whole values `vs` (any number of them, any total size), started with an exhausted
+    expansion buffer: it delivers their projections, consumes exactly their fields and leaves the buffer exhausted again -/
+theorem decodeLoop_ok (c : Cfg) (hv : c.Valid) : ∀ (fuel : Nat) (vs : List (List UInt8)) (d : Dec) (acc : List UInt8) (tail : List Bool),
+    vs.length < fuel → (∀ v ∈ vs, v.length = c.ntSize) → RInv d.st → d.bufLen ≤ d.bufPos →
+    avail d.st = fieldsBits (valueFields c vs) ++ tail →
+    ∃ d', decodeLoop c fuel d (vs.length * c.ntSize) acc = (d', acc ++ (vs.map (project c)).flatten) ∧
+      RInv d'.st ∧ d'.bufLen ≤ d'.bufPos ∧ avail d'.st = tail := by
+  have hn : 0 < c.ntSize := by rcases hv.1 with h | h | h | h <;> omega
+  have hn8 : c.ntSize ≤ 8 := by rcases hv.1 with h | h | h | h <;> omega
+  have hC : H4.Gen.Cnbit.NBIT_BUF_SIZE = 1024 := rfl
+  intro fuel
+  induction fuel with
+  | zero => intro vs d acc tail h; omega
+  | succ fuel ih =>
+    intro vs d acc tail hf hvs hr hb ha
+    unfold decodeLoop
+    by_cases h0 : vs.length * c.ntSize = 0
+    · have : vs = [] := by
+        cases vs with
+        | nil => rfl
+        | cons v vs => exact absurd h0 (Nat.ne_of_gt (Nat.mul_pos (by simp) hn))
+      subst this
+      simp only [List.length_nil, Nat.zero_mul, if_true]
+      exact ⟨d, by simp, hr, hb, by simpa [valueFields, fieldsBits] using ha⟩
+    · rw [if_neg h0]
+      have hk : 0 < vs.length := by
+        cases vs with
+        | nil => simp at h0
+        | cons v vs => simp
+      -- number of items expanded by this refill
+      generalize hk1 : max (min H4.Gen.Cnbit.NBIT_BUF_SIZE (vs.length * c.ntSize) / c.ntSize) 1 = k1
+      have hge : vs.length * c.ntSize ≥ c.ntSize := Nat.le_mul_of_pos_left _ hk
+      have hk1pos : 1 ≤ k1 := by omega
+      have hk1le : k1 ≤ vs.length := by
+        have h1 : min H4.Gen.Cnbit.NBIT_BUF_SIZE (vs.length * c.ntSize) / c.ntSize ≤ vs.length * c.ntSize / c.ntSize :=
+          Nat.div_le_div_right (Nat.min_le_right _ _)
+        rw [Nat.mul_div_cancel _ hn] at h1
+        omega
+      have hsplit : vs = vs.take k1 ++ vs.drop k1 := (List.take_append_drop k1 vs).symm
+      have hl1 : (vs.take k1).length = k1 := by rw [List.length_take]; omega
+      have ha1 : avail d.st = fieldsBits (valueFields c (vs.take k1)) ++ (fieldsBits (valueFields c (vs.drop k1)) ++ tail) := by
+        rw [ha]; conv => lhs; rw [hsplit]
+        rw [valueFields_append, fieldsBits_append, List.append_assoc]
+      obtain ⟨st', sg', e, r', a'⟩ := refillItems_ok c hv (vs.take k1) d.st d.sign _
+        (fun v hv' => hvs v (List.mem_of_mem_take hv')) hr ha1
+      rw [hl1] at e
+      have hlen1 := length_projects c (vs.take k1) (fun v hv' => hvs v (List.mem_of_mem_take hv'))
+      rw [hl1] at hlen1
+      have hbp : d.bufPos ≥ d.bufLen := hb
+      simp only [hbp, if_true, e, Nat.sub_zero]
+      generalize hI : ((vs.take k1).map (project c)).flatten = items at *
+      have hle : k1 * c.ntSize ≤ vs.length * c.ntSize := Nat.mul_le_mul_right _ hk1le
+      have hcopy : (if vs.length * c.ntSize > k1 * c.ntSize then k1 * c.ntSize else vs.length * c.ntSize) = k1 * c.ntSize := by
+        split <;> omega
+      rw [hcopy]
+      have htake : List.take (k1 * c.ntSize) (List.drop 0 (items ++ List.drop items.length d.buffer)) = items := by
+        rw [List.drop_zero, List.take_append_of_le_length (by omega), List.take_of_length_le (by omega)]
+      rw [htake]
+      have hrem : vs.length * c.ntSize - k1 * c.ntSize = (vs.drop k1).length * c.ntSize := by
+        rw [List.length_drop, Nat.sub_mul]
+      rw [hrem]
+      obtain ⟨d', e2, r2, b2, a2⟩ := ih (vs.drop k1)
+        { st := st', buffer := items ++ List.drop items.length d.buffer, bufPos := 0 + k1 * c.ntSize, bufLen := k1 * c.ntSize, sign := sg', fail := d.fail }
+        (acc ++ items) tail (by rw [List.length_drop]; omega) (fun v hv' => hvs v (List.mem_of_mem_drop hv')) r' (by simp) a'
+      refine ⟨d', ?_, r2, b2, a2⟩
+      rw [e2, List.append_assoc]
+      congr 1
+      rw [← hI]
+      conv => rhs; rw [hsplit]
+      simp only [List.map_append, List.flatten_append, List.map_take, List.map_drop]
+
+/-- `nbit_element_roundtrip`: the whole path, for ANY partition into whole-value transfers.  An element written with any
+    sequence of whole values (through the real bit layer: `Hbitwrite`s, buffering, `Hendbitaccess`) and read back from the start
+    with any sequence of `Hread`s of whole values - `chunks` groups the values by read; reads of any size, also larger than the
+    1024-byte expansion buffer, growing or shrinking - returns in every read the documented projection of its values, whatever
+    the expansion buffer held before (`stale`).  The write side is partition-independent as well (`nbit_encode_partition`).
+    (Before the repair of `nbit-read-partition` this held for a single read of at most 1024 bytes only.) -/
+theorem nbit_element_roundtrip (c : Cfg) (hv : c.Valid) (chunks : List (List (List UInt8)))
+    (hvs : ∀ ch ∈ chunks, ∀ v ∈ ch, v.length = c.ntSize) (stale : UInt8) :
+    readBack c (compress c chunks.flatten.flatten) (chunks.map fun ch => ch.length * c.ntSize) stale =
+      chunks.map fun ch => (ch.map (project c)).flatten := by
+  have hn : 0 < c.ntSize := by rcases hv.1 with h | h | h | h <;> omega
+  have hall : ∀ v ∈ chunks.flatten, v.length = c.ntSize := by
+    intro v hv'
+    obtain ⟨ch, hch, hvc⟩ := List.mem_flatten.mp hv'
+    exact hvs ch hch v hvc
+  obtain ⟨f1, _⟩ := encode_values c hn chunks.flatten hall
+  have hvf : ValidFields (encode c 0 chunks.flatten.flatten).1 := encode_valid c hv _ 0
+  obtain ⟨⟨kpad, _, ht⟩, _⟩ := bitwrite_refines _ hvf false
+  obtain ⟨ri, junk, ha⟩ := startRead_ok (compress c chunks.flatten.flatten)
+  have ha' : avail (startRead (compress c chunks.flatten.flatten)) =
+      fieldsBits (valueFields c chunks.flatten) ++ (List.replicate kpad false ++ junk) := by
+    rw [ha]; unfold compress valueFields; rw [ht, f1, List.append_assoc]
+  -- the reads, one after the other
+  have key : ∀ (chs : List (List (List UInt8))) (d : Dec) (tail : List Bool),
+      (∀ ch ∈ chs, ∀ v ∈ ch, v.length = c.ntSize) → RInv d.st → d.bufLen ≤ d.bufPos →
+      avail d.st = fieldsBits (valueFields c chs.flatten) ++ tail →
+      runOps c d ((chs.map fun ch => ch.length * c.ntSize).map .read) = chs.map fun ch => (ch.map (project c)).flatten := by
+    intro chs
+    induction chs with
+    | nil => intro d tail _ _ _ _; rfl
+    | cons ch chs ih =>
+      intro d tail h hr hb hav
+      simp only [List.flatten_cons, valueFields_append, fieldsBits_append, List.append_assoc] at hav
+      obtain ⟨d', e, r', b', a'⟩ := decodeLoop_ok c hv (ch.length * c.ntSize + 1) ch d [] _
+        (by have := Nat.le_mul_of_pos_right ch.length hn; omega) (h ch (by simp)) hr hb hav
+      simp only [List.map_cons, runOps, decode, e, List.nil_append]
+      rw [ih d' tail (fun ch' hc' => h ch' (by simp [hc'])) r' b' a']
+  unfold readBack decodeAll
+  exact key chunks _ _ hvs ri (by simp) ha'
 
 example : readBack { ntSize := 2, signExt := true, fillOne := false, maskOff := 9, maskLen := 6 }
     (compress { ntSize := 2, signExt := true, fillOne := false, maskOff := 9, maskLen := 6 } [0x03, 0xff, 0x02, 0x00]) [4] 0xbe
